@@ -690,7 +690,7 @@ def search(ctx):
     per_sel = ctx.scale(14, 40)
     unary_names = list(UNARY_OPS)
     for isel in range(NSEL):
-        if ctx.elapsed() > ctx.scale(56, 520):
+        if ctx.elapsed() > ctx.scale(62, 520):
             ctx.notes["search_stopped_early_at_selection"] = isel
             break
         src = gen_source(rng)
@@ -1016,7 +1016,13 @@ def run(ctx, replay=None):
         "x mask kind (dask leaf / NumPy / re-chunked / expression of x / of another array) x form; mixes = every multi-input op x every "
         "known/unknown pattern {K,U}^2, sampled {K,U}^3, x {before, after, partially resolved}, same-shape ops with a known partner of the "
         "true shape chunked aligned / other block count / same count mis-aligned; chains = 2-3 chained basic indexings on the known axes of an "
-        "array with an unknown axis x reduction x {before, after}"
+        "array with an unknown axis x reduction x {before, after}; "
+        "validity stream (props_ext/c28_validity.py): selections with adversarial per-block kept counts (first block keeps 1 / 0 / several, "
+        "later blocks differ; every pattern of its PATTERNS table per run) x every operation whose validity or result shape depends on the "
+        "length of the unknown axis (squeeze spellings, reshape, broadcast_to, integer / list / boolean indexing at 0, first-block count, L-1, L, "
+        "-L-1, windows, per-element repeats, joins / contractions with known or unknown partners of the true / first block's / a wrong length, "
+        "scalar conversions, ...) x {before, after, partially resolved}; NumPy's value or a refusal, and a refusal wherever NumPy raises; "
+        "deviations shared by a plain array with the same blocks are not counted"
     )
     ctx.assumptions = [
         "a refusal is any exception raised at construction or compute time while sizes are unknown",
